@@ -229,13 +229,20 @@ def replay_cases(ctx, acc, cases, label, corrupt=False, spin=False):
                                                   len(mism), st["trace_lines"]))
     if js.get("samples") and len(acc.samples) < 3:
         acc.samples.append({"case": js["samples"][0][:1500]})
-    lines = None
-    for m in mism:
-        if lines is None:
+    # The model predicts the replies as the code computes them today (order among EQUAL values by id, cursor = number of
+    # items counted).  The statement of C11 fixes neither: it compares paging with the server's OWN unlimited reply - and
+    # exactly that is judged by TLC on the runs recorded here (validate_traces).  A reply that differs from the model's
+    # is therefore reported as a difference (evidence, log), not as a violation; the self-test (corrupt) still needs them.
+    acc.model_diffs = getattr(acc, "model_diffs", 0) + len(mism)
+    if mism:
+        ctx.log("replay %s: %d replies differ from the model's prediction (not judged: the statement compares paging with the "
+                "server's own unlimited reply); first: %s" % (label, len(mism), mismatch_text(mism[0])[:400]))
+        if corrupt:
             lines = open(cases).read().split("\n")
-        if common.report(ctx, replay_name(acc, "c11-" + label), mismatch_text(m),
-                         {"kind": "cur-case", "case": lines[m["case"]], "mismatch": m}):
-            acc.violations += 1
+            for m in mism[:3]:
+                if common.report(ctx, replay_name(acc, "c11-" + label), mismatch_text(m),
+                                 {"kind": "cur-case", "case": lines[m["case"]], "mismatch": m}):
+                    acc.violations += 1
     acc.traces.append((prefix + ".trace.ndjson", prefix + ".lines.ndjson", prefix + ".setups.ndjson"))
     return st
 
@@ -403,6 +410,7 @@ def run(ctx):
             "replies_compared_items_and_cursor": st.get("replies", 0),
             "items_compared": st.get("items", 0),
             "replies_whose_cursor_exceeds_items_returned": st.get("cursor_ahead", 0),
+            "replies_differing_from_the_models_prediction_not_judged": getattr(acc, "model_diffs", 0),
         },
         "code_to_model": {
             "recorded_lines": summ["lines"],
